@@ -87,7 +87,22 @@ def check(ctx):
               "an update in the same tick as an entry reset counts, one in the same tick as a taken-transition reset does not")
     mc = ctx.fn("acting", "MarkerChange.action")
     st = [n for n in ast.walk(mc) if isinstance(n, ast.Assign) and dotted(n.targets[0]) == "mark.data"]
-    ctx.check(len(st) == 1 and src(st[0].value) == "storing.Data(share.items())", "T9-mark", mc, "MarkerChange: mark.data = Data(share.items())", "snapshot of all fields")
+    MC = FuncView(ctx, mc)
+    mt = MC.tests(lambda t: True)
+    only_mark = len(mt) == 1 and dotted(mt[0].ast.test) == "mark"
+    stn = MC.stores("mark.data")
+    ctx.check(len(st) == 1 and src(st[0].value) == "storing.Data(share.items())" and only_mark and
+              MC.cfg.always_reaches([mt[0].id], [n.id for n in stn] + [b for b, lab in MC.cfg.succ[mt[0].id] if lab == "F"]),
+              "T9-mark", mc, "MarkerChange: whenever the mark exists, mark.data = Data(share.items()) (no other condition)",
+              "the snapshot behind `is changed` must be retaken at *every* marker moment; making it conditional on stamps (tick "
+              "granularity) or on bookkeeping keeps a stale snapshot when the share was written twice in one tick")
+    MUv = FuncView(ctx, mu)
+    mtu = [t for t in MUv.cfg.nodes if t.kind == "test"]
+    stamp_st = MUv.stores("mark.stamp")
+    mk = [t for t in mtu if dotted(t.ast.test) == "mark"]
+    ctx.check(bool(mk) and bool(stamp_st) and MUv.cfg.always_reaches([mk[0].id], [n.id for n in stamp_st] + [b for b, lab in MUv.cfg.succ[mk[0].id] if lab == "F"]) and
+              all(not any(MUv.dominated_by_edge([n], t, lab) for lab in ("T", "F")) for n in stamp_st for t in mtu if t is not mk[0]),
+              "T9-mark", mu, "MarkerUpdate: whenever the mark exists, mark.stamp is reset (no other condition)", "the mark must be set at every marker moment")
     nch = ctx.fn("needing", "NeedChange.action")
     N = FuncView(ctx, nch, exc="calls")
     t0 = N.tests(lambda t: src(t) == "mark.data is None")
